@@ -19,9 +19,13 @@ RULE = ('threaded histories; evaluation = one logged operation; distinct = disti
         'plus (limits, threads, build); a history is non-trivial when at least two threads grow successfully')
 
 
-def build_module(mn, mx):
+def build_module(mn, mx, imported=False):
     m = Module()
-    m.mems.append((mn, mx, True))
+    if imported:
+        # the wasi-threads shape (--import-memory --shared-memory): the embedder owns the shared memory
+        m.imports.append(('env', 'memory', 'memory', (mn, mx, True)))
+    else:
+        m.mems.append((mn, mx, True))
     m.exports.append(('mem', 'memory', 0))
     m.add_func([I32], [I32], [], [('local.get', 0), ('memory.grow',)], export='grow')
     m.add_func([], [I32], [], [('memory.size',)], export='size')
@@ -139,11 +143,12 @@ def main(chk):
     quick = chk.tier == 'quick'
     w2c2 = env.build_translator('plain')
     root = env.subdir('c18')
-    limits = [(1, 8), (1, 64), (2, 3), (1, 200), (4, 4)]
+    limits = [(1, 8), (1, 64), (2, 3), (1, 200), (4, 4), (1, 32)]
+    imported = {0, 5}        # these limit shapes IMPORT their shared memory (0 runs under plain+tsan, 5 under plain+release builds)
     exes = {}
     for li, (mn, mx) in enumerate(limits):
         d = os.path.join(root, 'l%d' % li)
-        b = build_module(mn, mx).encode()
+        b = build_module(mn, mx, li in imported).encode()
         # odd limit shapes are translated into one file per function (-f 1): grow, size, load and store then live in different
         # translation units of the same program, which is how large modules are normally built
         t = e2e.translate(w2c2, b, d, 'gm', ['-f', '1'] if li % 2 else [])
@@ -153,7 +158,7 @@ def main(chk):
         srcs = [os.path.join(d, f) for f in t.files if f.endswith('.c')] + [os.path.join(env.VERIF, 'harness', 'grow_stress.c')] + [os.path.join(env.REPO, 'futex', f) for f in ('futex.c', 'list.c', 'map.c')]
         for tag, fl in (('plain', ['-O1', '-g', '-DW2C2_VERIF=1']), ('tsan', ['-O1', '-g', '-fsanitize=thread', '-DW2C2_VERIF=1']), ('noguard', ['-O2', '-DNDEBUG'])):   # the release configuration of an embedder: hooks off, assertions compiled out
             exe = os.path.join(d, 'gs-' + tag)
-            r = env.run(['gcc'] + fl + ['-w', '-DWASM_THREADS_PTHREADS', '-I', e2e.base_include(), '-I', os.path.join(env.REPO, 'futex'), '-I', d] + srcs + ['-o', exe, '-lpthread', '-lm'], timeout=600)
+            r = env.run(['gcc'] + fl + (['-DIMPORTED_MEM=1', '-DMEM_MIN=%d' % mn, '-DMEM_MAX=%d' % mx] if li in imported else []) + ['-w', '-DWASM_THREADS_PTHREADS', '-I', e2e.base_include(), '-I', os.path.join(env.REPO, 'futex'), '-I', d] + srcs + ['-o', exe, '-lpthread', '-lm'], timeout=600)
             if r.rc != 0:
                 chk.violation('C18:compile:%s' % tag, 'grow harness does not build: %s' % r.err[-1500:], {'module.wasm': b})
                 continue
